@@ -218,7 +218,7 @@ def gen_expr(rng, depth):
         base = gen_expr(rng, depth - 1)
         if not re.fullmatch(r"[\w.]+|-?[\d.]+(d-?\d+)?", base):
             base = f"({base})"
-        ex = rng.choice(["2", "0.5", "0.6353d0", "(-0.5)", "1.5d0", "-2", "2**2", "3**0.5"])
+        ex = rng.choice(["2", "0.5", "0.6353d0", "(-0.5)", "1.5d0", "-2", "2**2", "3**0.5", "user_x", "Te", "T32", "sqrt(Te)"])
         sign = "-" if rng.random() < 0.15 else ""      # Fortran: -x**2 is -(x**2)
         return f"{sign}{base}**{ex}"
     if r < 0.8:
@@ -315,7 +315,11 @@ def run(argv):
              "Tgas**(1d0/3d0)", "2d0/3d0*Te", "1d0/2d0", "(3d0/4d0)*Tgas**(5d-1)", "7d0/2d0+1d1/4d0",
              "Tgas**(1/2)", "3/2*1.1d-10*Te", "Tgas**(-2/3)", "7/2/Tgas*1d-8", "2*3/4*Tgas", "Te*(5/2)+Tgas/2",
              "exp(-(Tgas/1.2d3)**2)", "3.0d-9*exp(-T32**1.5d0)", "-Tgas**2", "Te*(-invTe**2)", "-n(idx_H)**2", "-sqrt(Tgas)**3",
-             "1.2d-8/(Tgas/3.d2)", "Te/(T32/invTe)", "2.0/(Tgas/300.0)/(Te/2.0)", "Tgas-(Te-T32)", "Tgas/(Te*T32)", "Tgas-(Te+T32)"]
+             "1.2d-8/(Tgas/3.d2)", "Te/(T32/invTe)", "2.0/(Tgas/300.0)/(Te/2.0)", "Tgas-(Te-T32)", "Tgas/(Te*T32)", "Tgas-(Te+T32)",
+             # an exponent that is a variable (or a call), followed by further terms - with and without blanks
+             "4.0d-10*(T32**user_x+0.25+nH*invT)", "4.0d-10*(T32**user_x + 0.25 + nH*invT)", "Tgas**user_x-1-1", "Tgas**user_x - 1 - 1",
+             "Tgas**user_x-1.5d0+Te", "T32**sqrt(Te)+0.5+Te", "T32**Te2x+2+Tgas", "Te**user_x-0.5*Tgas-2.0"]
+    n_fixed = len(exprs)
     for f in [REPO / "tests/data/primordial.krome", REPO / "naunet/examples/primordial/primordial.krome",
               REPO / "naunet/examples/deuterium/deuterium.krome", REPO / "tests/data/minimal.krome"]:
         if f.exists():
@@ -325,14 +329,17 @@ def run(argv):
     nb = len(exprs)
     n_rand = 250 if tier == "quick" else 4000
     for _ in range(n_rand):
-        exprs.append(gen_expr(rng, rng.randint(1, 4)))
+        e = gen_expr(rng, rng.randint(1, 4))
+        if rng.random() < 0.3:     # the same text with blanks around its binary + and - (free-form Fortran allows them anywhere)
+            e = re.sub(r"(?<=[\w)])(?<![0-9.][deDE])([+-])(?=[\w(.])", r" \1 ", e)
+        exprs.append(e)
     # malformed stream: must be rejected or value-preserving, never silently altered
     exprs += ["-x", "exp(-x)", "a^2", "2 x", "sin(x)*", "(a+b", "a**", "1.0e", "a=b", "Tgas//2.0", "2.0//3.0*Te", "Te**//2"]
     reqs, pend = [], []
     KROMEReaction.initialize()
     KROMEReaction.reacformat = "idx,r,p,rate"
     for n, fx in enumerate(exprs):
-        bundled = 34 <= n < nb
+        bundled = n_fixed <= n < nb
         try:
             with silenced():
                 if "," in fx:
